@@ -85,9 +85,31 @@ def gen_prefix_family(rng):
     return Case(words, [], inp[:12], rng.pick([3, 5, 5]))
 
 
+VOICED = {"か": "が", "き": "ぎ", "く": "ぐ", "け": "げ", "こ": "ご", "さ": "ざ", "し": "じ", "す": "ず", "せ": "ぜ", "そ": "ぞ",
+          "た": "だ", "ち": "ぢ", "つ": "づ", "て": "で", "と": "ど", "は": "ば", "ひ": "び", "ふ": "ぶ", "へ": "べ", "ほ": "ぼ"}
+HALF_VOICED = {"は": "ぱ", "ひ": "ぴ", "ふ": "ぷ", "へ": "ぺ", "ほ": "ぽ"}
+
+
+def gen_voiced_family(rng):
+    """A word stored under an unvoiced reading and an input that spells it voiced / half-voiced (after a head prefix, or alone):
+    a look-up that normalises the key and then "restores" the reading must restore exactly what was typed."""
+    first = rng.pick(list(VOICED))
+    rest = "".join(rng.pick("るまかんしつきえ") for _ in range(1 + rng.below(3)))
+    rd = first + rest
+    pre = rng.pick(["お", "こ", "まっ", "だい", "ご"])
+    words = [("anc", pre, rng.pick(KANJI), "AFX.prefix"), ("std", rd, rng.pick(KANJI) + rng.pick(KANJI), rng.pick(STD_SPEECH[:4]))]
+    if rng.chance(1, 2):
+        words.append(("std", VOICED[first] + rest, rng.pick(KANJI), "N.common"))
+    typed = HALF_VOICED[first] if first in HALF_VOICED and rng.chance(1, 2) else VOICED[first]
+    inp = (pre if rng.chance(3, 4) else "") + typed + rest + ("" if rng.chance(2, 3) else rng.pick(["に", "を", "x"]))
+    return Case(words, [], inp[:12], rng.pick([3, 5]))
+
+
 def gen_case(rng):
     if rng.chance(1, 8):
         return gen_prefix_family(rng)
+    if rng.chance(1, 14):
+        return gen_voiced_family(rng)
     k = 2 + rng.below(4)
     kana = [rng.pick(ALPHA[:60]) for _ in range(k)]
     nwords = rng.below(9)
@@ -169,6 +191,12 @@ CORPUS = [
     Case([("std", "くるま", "車", "N.common"), ("anc", "で", "で", "P.case")], [], "くるまで　", 3),
     Case([("std", "くるま", "車", "N.common"), ("anc", "で", "で", "P.case")], [], " くるまで", 3),
     Case([("std", "くるま", "車", "N.common"), ("anc", "しん", "新", "AFX.prefix")], [], "しんくるま、はしる", 3),
+    # a voiced / half-voiced spelling of a word stored unvoiced, after a head prefix (sequential voicing)
+    Case([("anc", "まっ", "真っ", "AFX.prefix"), ("std", "ひるま", "昼間", "N.common")], [], "まっぴるま", 5),
+    Case([("anc", "こ", "小", "AFX.prefix"), ("std", "はこ", "箱", "N.common"), ("std", "かいしゃ", "会社", "N.common")], [], "こばこ", 5),
+    # a common and a proper noun with the same surface and reading, and a competitor learned in proper-noun context
+    Case([("std", "はやし", "林", "N.common"), ("std", "はやし", "林", "N.proper"), ("std", "はやし", "囃子", "N.common")],
+         [("proper", "囃子", 5), ("normal", "囃子", 5)], "はやし", 1),
 ]
 
 
